@@ -17,6 +17,14 @@ CLAIMS = {
         "rewritten from the untouched table, and every probe loop the command started was stopped (probed multiset and rotation unchanged). "
         "Tied by injecting failing commands of every class into random histories and comparing list/state file/probed targets/routing afterwards.",
    note=TB + "Probe loops are observed white-box through the health-check contexts."),
+
+'C10': dict(engine='rollout+control', technique='Lean 4 proof (decision stated outright; monotonicity by kernel-checked decide over all 101 percentages, lifted) + differential correspondence run',
+   text="Theorems: the rollout decision is exactly (rollout targets exist, split set, cookie value non-empty, on the allowlist or hash <= split "
+        "point); it is a pure function of the value (sticky); included at p implies included at every q >= p up to 100; 100% includes every "
+        "value; the included share of the 2^32 hash space is within 2.4e-8 of p/100 for all 101 percentages; no cookie / no split / after "
+        "rollout stop => active targets; rollout set without rollout targets is rejected and changes nothing. Tied by comparing Go's split "
+        "point for every percentage, cookie extraction and decision on generated headers, and rollout histories on the real Router.",
+   note=TB + "Modelled stdlib: float64 rounding (2 operations), net/http readCookies, hash/fnv. Statistical uniformity of FNV-1a is not proved."),
 }
 
 NA_REASON = {}
